@@ -132,7 +132,11 @@ def hexvals(vals):
 
 def kani_cmd(h, tdir, playback):
     cmd = ["cargo", "kani", "--harness", h.get("mod", h["name"].split("_")[0] + "*") + "::" + h["name"], "--exact",
-           "--target-dir", tdir, "-Z", "stubbing"]
+           "--target-dir", tdir, "-Z", "stubbing",
+           # dyn calls and, above all, dyn *drops* only fan out to implementers of the trait: without it a
+           # change that makes the code drop a boxed closure read from an enum in heap memory (imprecise
+           # vtable pointer) sends symex through every drop_glue in the program -> out of memory
+           "-Z", "restrict-vtable"]
     if playback:
         # concrete playback needs the unsliced formula (5x the SAT variables here), so it is only
         # switched on for the second run of a harness that FAILED
@@ -227,13 +231,16 @@ def confirm_and_report(prop, crate, res, known, findings_out):
     # harness trips the *same* assertion the solver reported as FAILED.
     if ok_dev:
         for chk in res["failed_checks"]:
-            needle = chk["desc"].strip('"')
-            if not needle or any(c["desc"] == needle for c in cands):
+            full = chk["desc"].strip('"')
+            # a panic message of the code under test is reported with its format placeholders:
+            # search for the literal text before the first placeholder
+            needle = full.split("{")[0] if "{" in full else full
+            if len(needle) < 6 or any(c["desc"] == full for c in cands):
                 continue
             rc_s, out_s, _, _ = run([bin_dev, "--search", res["name"], needle], timeout=300)
             m = re.search(r"FOUND ([0-9a-f,]*) \| (.*)", out_s)
             if m:
-                cands.append({"kind": "assertion", "desc": needle, "vals": [[int(x, 16)] for x in m.group(1).split(",") if x],
+                cands.append({"kind": "assertion", "desc": full, "vals": [[int(x, 16)] for x in m.group(1).split(",") if x],
                               "from": "native search guided by the solver's failed check"})
     missing = [c["desc"].strip('"') for c in res["failed_checks"] if not any(k["desc"] == c["desc"].strip('"') for k in cands)]
     if missing and "_playback" in res:
